@@ -113,6 +113,11 @@ fn diff_generator(g: &Generator, zeros: u64, data: &[u8], declared_ok: bool) -> 
     None
 }
 
+pub const GENERATOR_CHECKS: [&str; 8] = [
+    "input-size", "finalize-vs-ctph", "finalize-without-truncation-vs-ctph", "finalize-raw-truncated-long-vs-ctph",
+    "finalize-raw-short-nontruncated-vs-ctph", "finalize-raw-short-nontruncated-overflow", "small-input-warning", "generator-panic",
+];
+
 fn diff_oneshot(data: &[u8]) -> Option<(&'static str, String)> {
     match guard(|| {
         let mut g = Generator::new();
@@ -186,7 +191,7 @@ pub fn c01(ctx: &mut Ctx) -> R {
 
 fn c01_one(ctx: &mut Ctx, data: &[u8], desc: &str) -> R {
     ctx.input();
-    ctx.checks.insert("finalize-vs-ctph");
+    ctx.checks.extend(GENERATOR_CHECKS);
     if diff_oneshot(data).is_some() {
         return Err(fail_oneshot(data, desc));
     }
@@ -276,7 +281,7 @@ pub fn c03(ctx: &mut Ctx) -> R {
         let (data, desc) = gen::gen_input(&mut ctx.rng, max_n);
         ctx.input();
         // if the one-shot form is already wrong this is a C01 matter, but still a disagreement
-        ctx.checks.insert("finalize-vs-ctph");
+        ctx.checks.extend(GENERATOR_CHECKS);
         if diff_oneshot(&data).is_some() {
             return Err(fail_oneshot(&data, &desc));
         }
@@ -315,7 +320,8 @@ pub fn c12(ctx: &mut Ctx) -> R {
         ctx.input();
         let mut log = String::new();
         let res = guard(|| c12_history(ctx, &mut log));
-        ctx.checks.insert("history-vs-model");
+        ctx.checks.extend(GENERATOR_CHECKS);
+        ctx.checks.extend(["set-fixed-input-size-result", "finalize-after-wrong-declared-size"]);
         match res {
             Ok(None) => {}
             Ok(Some((check, what))) => return Err(Fail { check, details: format!("history: {}\n{}", log, what) }),
@@ -442,7 +448,7 @@ pub fn c13(ctx: &mut Ctx) -> R {
         }
         let desc = format!("border 192*2^{}{:+} filler={} suffix: {} pieces at level {}", n, delta, style, pieces, lvl);
         ctx.input();
-        ctx.checks.insert("finalize-vs-ctph");
+        ctx.checks.extend(GENERATOR_CHECKS);
         if diff_oneshot(&data).is_some() {
             return Err(fail_oneshot(&data, &desc));
         }
@@ -475,7 +481,9 @@ fn c13_huge(ctx: &mut Ctx, count: usize) -> R {
         };
         let lvl = *ctx.rng.pick(&[n as u8, n as u8 + 1, (n as u8).saturating_sub(1), 30, 29]);
         let pieces = *ctx.rng.pick(&[0usize, 1, 31, 32, 33, 64, 70]);
-        let suffix = gen::adversarial(&mut ctx.rng, pieces * 12 + ctx.rng.range(0, 40), lvl.min(30), pieces, 4);
+        let extra = ctx.rng.range(0, 40);
+        let style = *ctx.rng.pick(&[4u8, 4, 0, 3, 1]);
+        let suffix = gen::adversarial(&mut ctx.rng, pieces * 12 + extra, lvl.min(30), pieces, style);
         let zeros = total.saturating_sub(suffix.len() as u64);
         ctx.input();
         ctx.checks.insert("huge-size-vs-ctph");
